@@ -33,10 +33,10 @@ Inductive stm0 :=
 | SCallPad                         (* padBunchProfiles() *)
 | SFwd                             (* fft_execute(_fft_bunchprofile) *)
 | SInv                             (* fft_execute(_fft_wakelosses) *)
-| SLoss (dst zi fi : ix)           (* _wakelosses[dst] = (*_impedance)[zi] * _formfactor[fi] *)
+| SLoss (dst zi fi : ix)           (* _wakelosses[dst] = _impedance[zi] * _formfactor[fi] *)
 | SReadback (row col src : ix)     (* _wakepotential[row][col] = k_scale(_wakepotential_padded[src]) *)
 | SCsrZero (row : ix)              (* _csrintensity[row] = 0 *)
-| SCsrCell (row col ax zi fi : ix) (* _csrspectrum[row][col] = k_csr(cutoff, _axis_freq[ax], (*_impedance)[zi], _formfactor[fi]) *)
+| SCsrCell (row col ax zi fi : ix) (* _csrspectrum[row][col] = k_csr(cutoff, _axis_freq[ax], _impedance[zi], _formfactor[fi]) *)
 | SCsrAcc (dst row col : ix).      (* _csrintensity[dst] += delta * _csrspectrum[row][col] *)
 
 Inductive stm1 := S0 (s : stm0) | SFor1 (bound : ix) (body : list stm0).
@@ -47,6 +47,7 @@ Fixpoint loopZ {S : Type} (m : nat) (k : Z) (f : Z -> S -> S) (s : S) : S :=
   match m with O => s | S m' => loopZ m' (k + 1) f (f k s) end.
 
 Definition vset (v : nat -> Z) (d : nat) (k : Z) : nat -> Z := fun j => if Nat.eqb j d then k else v j.
+Definition v0 : nat -> Z := fun _ => 0.      (* no loop entered yet *)
 Definition upd {A} (buf : Z -> A) (a : Z) (x : A) : Z -> A := store buf a 1 (fun _ => x).
 
 Section Interp.
@@ -118,7 +119,7 @@ Section Interp.
     end.
 
   Definition exec (prog : list stm2) (s : state T C) : state T C :=
-    fold_left (fun s c => exec2 (fun _ => 0) c s) prog s.
+    fold_left (fun s c => exec2 v0 c s) prog s.
 End Interp.
 
 (** pointwise equality of two states (the buffers are functions; no extensionality axiom is used) *)
